@@ -1,6 +1,7 @@
 package main
 
 import (
+	"bytes"
 	"fmt"
 	"strings"
 
@@ -56,13 +57,65 @@ var attrNames = []string{"k", "id", "v", "k2", "x"}
 var words = []string{"a", "b", "ab", "1", "2", "10", "x y", "x  y", "x\ty", "X y", " ", "\n  ", "é", "日本", "a<b", "q&r", "\"q\"", "it's", "0", "abc", "ab", "Ab", " ab"}
 
 type docGen struct {
+	words    []string // nil: the package's word list
 	r        *vh.Rng
 	maxDepth int
 	budget   int
 	feat     map[string]bool
 }
 
-func (g *docGen) word() string { return words[g.r.Pick(len(words))] }
+func (g *docGen) word() string {
+	if g.words != nil {
+		return g.words[g.r.Pick(len(g.words))]
+	}
+	return words[g.r.Pick(len(words))]
+}
+
+// Documents in a declared single-byte encoding.  Both parsers hand the declared label to
+// charset.NewReaderLabel (the WHATWG label table: iso-8859-1 / latin1 / us-ascii are windows-1252,
+// iso-8859-9 is windows-1254, ...), so every byte must come out as the same character on both
+// sides - in particular the bytes 0x80..0x9F, which a strict ISO-8859-1 decoder maps to C1
+// controls and windows-1252 to printable characters (0x80 = U+20AC).
+//
+// Such a document is carried as a string with the prefix "bytes8:" followed by ONE CODE POINT
+// PER BYTE (so it survives JSON in case descriptions); rawDoc turns it into the bytes.
+const bytes8 = "bytes8:"
+
+var encodingLabels = []string{"ISO-8859-1", "iso-8859-1", "latin1", "us-ascii", "windows-1252", "iso-8859-9", "iso-8859-15", "ISO-8859-15", "windows-1254", "l1"}
+
+// words whose code points stand for bytes: 0x80..0x9F, 0xA0..0xFF and plain ASCII
+var byteWords = []string{"\u0080uro", "\u0093q\u0094", "a\u0085", "\u0099", "\u008a\u009a", "\u0091x\u0092", "\u0080", "\u0096\u0097", "\u009f",
+	"caf\u00e9", "x\u00a0y", "\u00fe\u00ff", "\u00a4", "\u00d0\u00dd\u00de", "\u00f0\u00fd", "a", "ab", "x y", "1", "0", "q&r", "a<b"}
+
+func rawDoc(text string) []byte {
+	if !strings.HasPrefix(text, bytes8) {
+		return []byte(text)
+	}
+	rs := []rune(text[len(bytes8):])
+	b := make([]byte, len(rs))
+	for i, r := range rs {
+		b[i] = byte(r)
+	}
+	return b
+}
+
+// genEncodedDoc: a random document in a declared single-byte encoding with bytes >= 0x80 in
+// text and attribute values.
+func genEncodedDoc(r *vh.Rng) (string, *gnode, map[string]bool) {
+	g := &docGen{r: r, maxDepth: r.Between(1, 5), budget: r.Between(3, 30), feat: map[string]bool{}, words: byteWords}
+	root := g.element(0, map[string]bool{})
+	label := encodingLabels[r.Pick(len(encodingLabels))]
+	var sb strings.Builder
+	sb.WriteString(bytes8 + `<?xml version="1.0" encoding="` + label + `"?>`)
+	if r.Chance(0.3) {
+		sb.WriteString("\n")
+		g.feat["text-before-root"] = true
+	}
+	g.feat["prolog"] = true
+	g.feat["declared-encoding:"+strings.ToLower(label)] = true
+	root.write(&sb, r)
+	return sb.String(), root, g.feat
+}
 
 func (g *docGen) element(depth int, scope map[string]bool) *gnode {
 	r := g.r
@@ -336,12 +389,12 @@ func parseBoth(text string, pre *poolPrelude) (*docCtx, error) {
 	if err := pre.run(); err != nil {
 		return nil, err
 	}
-	xdoc, err := xmlquery.Parse(strings.NewReader(text))
+	xdoc, err := xmlquery.Parse(bytes.NewReader(rawDoc(text)))
 	if err != nil {
 		return nil, fmt.Errorf("xmlquery.Parse: %v", err)
 	}
 	normaliseRef(xdoc)
-	sr, err := idr.NewXMLStreamReader(strings.NewReader(text), ".")
+	sr, err := idr.NewXMLStreamReader(bytes.NewReader(rawDoc(text)), ".")
 	if err != nil {
 		return nil, fmt.Errorf("idr.NewXMLStreamReader: %v", err)
 	}
@@ -379,7 +432,7 @@ type probeResult struct {
 var probes = []string{"count(//node())", "count(//text())", "count(//*)", "count(//@*)", "count(//*[not(node())])",
 	"count(//*[text()])", "count(//text()[.=''])", "count(//*[count(node())=1])", "count(//node()[last()][self::text()])",
 	"count(/following::node())", "count(/preceding::node())", "count(/following-sibling::node())", "count(/preceding-sibling::node())",
-	"string(//text()[1])", "string(//*[last()])", "string(/)", "string-length(/)", "count(//text()[normalize-space(.)=''])"}
+	"string(//text()[1])", "string(//*[last()])", "string(//@*)", "string-length(string(/))", "count(//*[contains(., '\u20ac')])", "string(/)", "string-length(/)", "count(//text()[normalize-space(.)=''])"}
 
 func probeUnpaired(xdoc *xmlquery.Node, idoc *idr.Node) *probeResult {
 	for _, e := range probes {
